@@ -318,6 +318,17 @@ impl ZmtpEngine {
           );
           return;
         }
+        // ZMTP/2.0 has no security handshake: a socket configured with a security
+        // mechanism must not let a peer skip it by announcing the old revision.
+        if self.config.security_enabled {
+          self.fail(
+            out,
+            ZmqError::SecurityError(
+              "ZMTP/2.0 peer refused: a security mechanism is configured".into(),
+            ),
+          );
+          return;
+        }
         // The v2 socket-type lives at byte 11; wait for the full 12-byte header.
         if self.network_read_accumulator.len() < V2_GREETING_LENGTH {
           return;
